@@ -1291,7 +1291,9 @@ namespace bluetoe {
             {
                 if ( !stoped_
                     && ( starting_index_ != details::invalid_attribute_index && starting_index_ <= index_ )
-                    && details::handle_index_mapping< Server >::handle_by_index( index_ ) <= ending_handle_ )
+                    && details::handle_index_mapping< Server >::handle_by_index( index_ ) <= ending_handle_
+                    // secondary services are not part of the Primary Service group
+                    && Server::attribute_at( index_ ).uuid == bits( details::gatt_uuids::primary_service ) )
                 {
                     if ( first_ )
                     {
@@ -1589,7 +1591,8 @@ namespace bluetoe {
 
                     using mapping = details::handle_index_mapping< Server >;
 
-                    if ( filter_( index_, attr ) )
+                    // secondary services are not part of the Primary Service group
+                    if ( attr.uuid == bits( details::gatt_uuids::primary_service ) && filter_( index_, attr ) )
                     {
                         found_ = iterator_.template operator()< Service >(
                             mapping::handle_by_index( index_ ),
